@@ -13,9 +13,12 @@ C11 — what the derived-identity lists have to be, read off the schema (RFC 795
 * The list reported for `i` holds exactly the identities derived from `i`, strictly ascending by
   (identity name, module name) — hence each once and in an order fixed by the schema.
 
-The only algorithm in here is `closure` (breadth-first rounds until nothing new turns up); its
+The only algorithm of this part is `closure` (breadth-first rounds until nothing new turns up); its
 meaning is proved in `Goyang.Props.C11.closure_is_reachability`.  Everything else is a list
-comprehension.  Nothing of `Goyang.Model.Identity` is used; the registry functions
+comprehension.  For texts RFC 7950 rules out but goyang loads — several identity statements for one
+vertex, several revisions of one module — see "Several identity statements for one vertex" below:
+the order of registration (ascending table keys; explicit-stack depth-first `preorder` over the
+includes; source order), the `survivors`, and `survivorGraph`.  Module names: `isIdentifier`.  Nothing of `Goyang.Model.Identity` is used; the registry functions
 (`findModule`, `owner`, `byId`) are the shared reading of import/include/belongs-to statements.
 -/
 namespace Goyang.Spec.Identity
@@ -122,6 +125,102 @@ def graph (r : Registry) : Option Graph :=
 /-- No two identity statements of the schema define the same vertex (RFC 7950 §7.18: identity
 names are unique within a module and its submodules; module names are unique). -/
 def OneStatementPerVertex (G : Graph) : Prop := G.verts.Nodup
+
+/-! ### Several identity statements for one vertex
+
+RFC 7950 forbids two identity statements with one name in a module and its submodules, and a schema
+holds one revision of a module.  goyang accepts such texts, and loads several revisions of one module
+side by side.  Its identity dictionary then keeps ONE statement per vertex: the statement that is
+registered last.  The order of registration, read off `resolveIdentities`:
+
+* the keys of the module table (`name` and `name@revision`) in ascending (byte) order — so of two
+  revisions of one module the later revision comes last, since `name < name@r1 < name@r2`;
+* under one key: the module, then what it includes, depth first, each (sub)module where it is
+  first met and once only;
+* within one (sub)module: source order.
+
+`survivors` are the statements that are not registered again later; `survivorGraph` is the identity
+graph of these statements alone: a shadowed statement contributes neither a vertex nor its base
+statements.  On a schema with one statement per vertex every statement survives. -/
+
+/-- Depth first, with an explicit stack: take the first (sub)module of `todo`; when it is new, list
+it and put what it includes in front of the rest.  `none`: `steps` steps were not enough (one step
+per include statement of the schema, plus two, always are). -/
+def preorder {α : Type} [DecidableEq α] (succ : α → List α) : Nat → List α → List α → Option (List α)
+  | 0, _, _ => none
+  | _ + 1, [], seen => some seen
+  | steps + 1, x :: todo, seen =>
+    if x ∈ seen then preorder succ steps todo seen
+    else preorder succ steps (succ x ++ todo) (seen ++ [x])
+
+/-- Put a binding of the module table in front of the first binding with a greater key. -/
+def insertKey (kv : String × Nat) : List (String × Nat) → List (String × Nat)
+  | [] => [kv]
+  | x :: xs => if kv.1 < x.1 then kv :: x :: xs else x :: insertKey kv xs
+
+/-- The bindings of the module table by ascending key. -/
+def ascendingKeys (table : List (String × Nat)) : List (String × Nat) := table.foldr insertKey []
+
+def preorderSteps (r : Registry) : Nat := (r.mods.map (·.includes.length)).sum + r.mods.length + 2
+
+/-- The identity statements of the parts `ss` (sequence numbers), in that order, each with its
+vertex and the (sub)module that declares it. -/
+def statementsOf (r : Registry) (ss : List Nat) : List (Vertex × Mod × Stmt) :=
+  (ss.filterMap r.byId).flatMap fun m => (vertexStmts r m).map fun (v, s) => (v, m, s)
+
+/-- The registrations made for the modules `mds`, one after the other. -/
+def registrationsFor (r : Registry) : List Mod → Option (List (Vertex × Mod × Stmt))
+  | [] => some []
+  | md :: rest =>
+    match preorder (includedBy r) (preorderSteps r) [md.seq] [] with
+    | none => none
+    | some ss => (registrationsFor r rest).map (statementsOf r ss ++ ·)
+
+/-- The identity statements in the order in which they are registered:
+(vertex, declaring (sub)module, statement). -/
+def registrations (r : Registry) : Option (List (Vertex × Mod × Stmt)) :=
+  registrationsFor r ((ascendingKeys r.modules).filterMap fun kv => r.byId kv.2)
+
+/-- Of a list of registrations, those whose vertex is not registered again further on. -/
+def survivors {β : Type} : List (Vertex × β) → List (Vertex × β)
+  | [] => []
+  | x :: rest => if rest.any (·.1 == x.1) then survivors rest else x :: survivors rest
+
+/-- The identity graph of the surviving statements (orphans and missing: as in `graph`). -/
+def survivorGraph (r : Registry) : Option Graph :=
+  match parts r, registrations r with
+  | some ps, some regs =>
+    let sv := survivors regs
+    let verts := sv.map (·.1)
+    let bases : List (Vertex × String × Option Vertex) := sv.flatMap fun (v, m, s) =>
+      (s.all "base").map fun b => (v, b.arg, names r m b.arg)
+    some
+      { verts := verts
+        edges := bases.filterMap fun (v, _, t) =>
+          match t with
+          | some b => if b ∈ verts then some (v, b) else none
+          | none => none
+        dangling := bases.filterMap fun (v, a, t) =>
+          match t with
+          | some b => if b ∈ verts then none else some (v, a)
+          | none => some (v, a)
+        orphans := (ps.filter fun m => (r.owner m).isNone).map (·.name)
+        missing := ps.flatMap fun m =>
+          ((m.includes.filter fun i => (r.findModule true i).isNone) ++
+           (m.imports.filter fun i => (r.findModule false i).isNone)).map (·.arg) }
+  | _, _ => none
+
+/-! ### Names
+
+RFC 7950 §6.2: `identifier = (ALPHA / "_") *(ALPHA / DIGIT / "_" / "-" / ".")`.  Module and submodule
+names are identifiers, so they hold no colon. -/
+
+def identifierChar (c : Char) : Bool := c.isAlphanum || c == '_' || c == '-' || c == '.'
+
+def isIdentifier (s : String) : Bool :=
+  match s.toList with
+  | [] => false
+  | c :: cs => (c.isAlpha || c == '_') && cs.all identifierChar
 
 /-! ### Derivation -/
 
